@@ -186,7 +186,36 @@ func genHostileExpr(t *rapid.T, depth int) (interface{}, string) {
 }
 
 func genChainOp(t *rapid.T, healthyPossible bool) chainOp {
-	switch rapid.IntRange(0, 29).Draw(t, "op") {
+	switch rapid.IntRange(0, 30).Draw(t, "op") {
+	case 30:
+		// one Apply/FilteredApply call: after its first instruction failed, the later ones run no callback and the first
+		// error is the one reported
+		filtered := rapid.Bool().Draw(t, "failfiltered")
+		second := rapid.IntRange(0, 1).Draw(t, "failsecond")
+		return chainOp{desc: fmt.Sprintf("Apply(failing instruction, instruction with a callback) filtered=%v second=%d", filtered, second), mustErr: true, run: func(qf qframe.QFrame) qframe.QFrame {
+			tq := qf.Apply(qframe.Instruction{Fn: 1, DstCol: "ti"})
+			if tq.Err != nil {
+				return tq
+			}
+			ins := []qframe.Instruction{{Fn: hx.IntToInt, DstCol: "n1", SrcCol1: "never-created-col"}, {Fn: hx.IntToInt, DstCol: "n2", SrcCol1: "ti"}}
+			if second == 1 {
+				ins[1] = qframe.Instruction{Fn: func() int { atomic.AddInt64(&hx.ApplyCalls, 1); return 1 }, DstCol: "n2"}
+			}
+			before := callbacks()
+			var res qframe.QFrame
+			if filtered {
+				res = tq.FilteredApply(qframe.Filter{Column: "ti", Comparator: "=", Arg: 1}, ins...)
+			} else {
+				res = tq.Apply(ins...)
+			}
+			if tq.Len() > 0 && callbacks() != before {
+				panic("VIOLATION: an instruction after a failed one still invoked its callback")
+			}
+			if res.Err != nil && !strings.Contains(res.Err.Error(), "never-created-col") {
+				panic("VIOLATION: the error of the first failing instruction was replaced: " + res.Err.Error())
+			}
+			return res
+		}}
 	case 29:
 		// ToCSV with a Columns list that does not fit the frame: an error return, for frames with and without rows
 		k := rapid.IntRange(0, 4).Draw(t, "csvcolumns")
